@@ -313,6 +313,70 @@ impl Drop for LeafFut {
     }
 }
 
+/// The same with `#[async_trait]` methods (the generated code wraps them in boxed Send futures and records the
+/// async heuristic): each method awaits a simulator event in the middle.
+#[async_trait::async_trait]
+#[savefile_abi_exportable(version = 0)]
+pub trait ASvc {
+    async fn aget(&self, ev: u32, x: u32) -> u32;
+    async fn aset(&mut self, ev: u32, s: String) -> u32;
+}
+pub struct ASvcImpl {
+    pub guard: Guard,
+    pub val: u32,
+}
+impl ASvcImpl {
+    pub fn new() -> ASvcImpl {
+        ASvcImpl { guard: Guard::new("asvc"), val: 7 }
+    }
+}
+/// awaits one simulator event
+pub struct WaitEv {
+    guard: Guard,
+    ev: u32,
+}
+impl WaitEv {
+    fn new(ev: u32) -> WaitEv {
+        WaitEv { guard: Guard::new("future"), ev }
+    }
+}
+impl Future for WaitEv {
+    type Output = ();
+    fn poll(self: Pin<&mut Self>, cx: &mut Context<'_>) -> Poll<()> {
+        fault_point("waitev.poll");
+        if crate::world::event_fired(self.ev) {
+            log(format!("waitev{}.ready", self.ev));
+            return Poll::Ready(());
+        }
+        log(format!("waitev{}.pending", self.ev));
+        crate::world::register_waker(self.ev, self.guard.id(), cx.waker().clone());
+        Poll::Pending
+    }
+}
+impl Drop for WaitEv {
+    fn drop(&mut self) {
+        crate::world::forget_wakers_of(&[self.guard.id()]);
+    }
+}
+#[async_trait::async_trait]
+impl ASvc for ASvcImpl {
+    async fn aget(&self, ev: u32, x: u32) -> u32 {
+        fault_point("aget");
+        log(format!("impl.aget ev={} x={}", ev, x));
+        WaitEv::new(ev).await;
+        fault_point("aget.resumed");
+        x.wrapping_add(self.val)
+    }
+    async fn aset(&mut self, ev: u32, s: String) -> u32 {
+        fault_point("aset");
+        log(format!("impl.aset ev={} {}", ev, digest(s.as_bytes())));
+        WaitEv::new(ev).await;
+        self.val = s.len() as u32;
+        fault_point("aset.resumed");
+        self.val
+    }
+}
+
 pub fn call_many(svc: &dyn Svc, v: &[u8; 64]) -> u32 {
     svc.many(v[0], v[1], v[2], v[3], v[4], v[5], v[6], v[7], v[8], v[9], v[10], v[11], v[12], v[13], v[14], v[15], v[16], v[17], v[18], v[19], v[20], v[21], v[22], v[23], v[24], v[25], v[26], v[27], v[28], v[29], v[30], v[31], v[32], v[33], v[34], v[35], v[36], v[37], v[38], v[39], v[40], v[41], v[42], v[43], v[44], v[45], v[46], v[47], v[48], v[49], v[50], v[51], v[52], v[53], v[54], v[55], v[56], v[57], v[58], v[59], v[60], v[61], v[62], v[63])
 }
